@@ -204,9 +204,14 @@ LeafVal(k, p, t) ==
                       [] CompOf(p) = 3 -> 0 [] OTHER -> U)
     [] k = "CL" -> (IF CompOf(p) \in {1, 2} THEN Q ELSE U)
 
+\* the values of ConstantField / CurrentLoop come out of unit conversions and are exact only up to rounding; whether an
+\* exponent computed from them is an integer (which decides the value for a negative base) is then not decidable: a power
+\* with such an exponent is outside the exact evaluation domain
+InexactExp(tr) == tr.op = "pow" /\ Kinds(tr.r) \cap {"CF", "CL"} # {}
+ApplyN(tr, a, b) == IF InexactExp(tr) THEN U ELSE Apply(tr.op, a, b)
 RECURSIVE Eval(_, _, _)
 Eval(tr, p, t) == IF IsLeaf(tr) THEN LeafVal(tr.k, p, t)
-                  ELSE Apply(tr.op, Eval(tr.l, p, t), Eval(tr.r, p, t))
+                  ELSE ApplyN(tr, Eval(tr.l, p, t), Eval(tr.r, p, t))
 
 TdKinds == {"PT", "PTb", "RU", "RD"}
 TimeDep(tr) == Kinds(tr) \cap TdKinds # {}
@@ -297,8 +302,8 @@ LeafMech(k, p, t) == IF MRampClamp /\ k \in {"RU", "RD"}
 RECURSIVE EvalMech(_, _, _)
 EvalMech(tr, p, t) == IF IsLeaf(tr) THEN LeafMech(tr.k, p, t)
                       ELSE LET lv == EvalMech(tr.l, p, t) IN
-                           IF MReuseEqual /\ IsParam(tr.l) /\ IsParam(tr.r) /\ LibEq(tr.l, tr.r) THEN Apply(tr.op, lv, lv)
-                           ELSE Apply(tr.op, lv, EvalMech(tr.r, p, t))
+                           IF MReuseEqual /\ IsParam(tr.l) /\ IsParam(tr.r) /\ LibEq(tr.l, tr.r) THEN ApplyN(tr, lv, lv)
+                           ELSE ApplyN(tr, lv, EvalMech(tr.r, p, t))
 EvalMechAt(tr, a, t) == [n \in 1..Len(ArgPts(a)) |-> EvalMech(tr, ArgPts(a)[n], t)]
 
 \* time seen by a caching operand: with a cache keyed without the time the first call at an argument wins
@@ -373,7 +378,7 @@ StaleArg(o, f, b, t, a) == IF MCacheKeyBuffer /\ \E e \in o.bufs : e[1] = f /\ e
 RECURSIVE EvalD(_, _, _, _, _)
 EvalD(tr, pcur, pold, t, root) ==
   IF IsLeaf(tr) THEN (IF tr.k \in TdKinds /\ ~root THEN LeafMech(tr.k, pold, t) ELSE LeafMech(tr.k, pcur, t))
-  ELSE Apply(tr.op, EvalD(tr.l, pcur, pold, t, FALSE), EvalD(tr.r, pcur, pold, t, FALSE))
+  ELSE ApplyN(tr, EvalD(tr.l, pcur, pold, t, FALSE), EvalD(tr.r, pcur, pold, t, FALSE))
 Deliver(f, t, a, b, fill) ==
   /\ pc = "built" /\ a \in ArrArgs \cup VecArgs /\ b \in Bufs
   /\ fill \subseteq ParamPaths(tree, "o")
